@@ -280,7 +280,7 @@ def triage(prop, cand, budget=300):
     if err:
         return "nondeterministic", err
     rr = exec_plans(exe, plans)
-    return "violation", {"replay": path, "cls": cls, "detail": rr["detail"] or cand.get("detail", ""), "signature": signature_of(plans, cls), "plans": plans}
+    return "violation", {"replay": path, "cls": cls, "detail": rr["detail"] or cand.get("detail", ""), "signature": signature_of(plans, cls), "plans": plans, "exe": exe}
 
 
 def determinism_selftest(exe, prop, cfgs, seed, n, w1, w2):
